@@ -417,7 +417,7 @@ package semver
 //@   ensures imp(s.rank == vector, s.contains(v, true) ==
 //@           ((compare(v, s.min) > 0 || (compare(v, s.min) == 0 && !s.minOpen)) &&
 //@            (compare(s.max, v) > 0 || (compare(s.max, v) == 0 && !s.maxOpen))))
-//@   property C09
+//@   property C09 C03
 
 // Normal (prerelease-restricted) matching, node-semver's rule: for a version
 // that is not a prerelease it is interval matching; a prerelease version is
@@ -448,7 +448,7 @@ package semver
 //@   ensures imp(old(noMarker(min, wildcard)) && old(noMarker(max, wildcard)) && result1 == nil,
 //@           result0.rank == ite(compare(min, max) < 0, vector, ite(minOpen || maxOpen, empty, unit)) &&
 //@           imp(result0.rank != empty, result0.min == min))
-//@   property C09
+//@   property C09 C03
 
 // Three-number versions compare by their numbers, first difference deciding;
 // with equal numbers a prerelease is below the release (used where compare
@@ -490,7 +490,7 @@ package semver
 //@   uses compare.plain.nums3
 //@   requires span3(s) && rel3(v) && sameSys(v, s.min)
 //@   ensures s.contains(v, true) == in3(s.min, s.minOpen, s.max, s.maxOpen, v)
-//@   property C09
+//@   property C09 C03
 //@ pred mergeable(this span, next span, v *Version) = span3(this) && span3(next) && rel3(v) &&
 //@      sameSys(this.min, next.min) && sameSys(v, this.min) &&
 //@      (lexLess3(this.min, next.min) || (lexEq3(this.min, next.min) && imp(this.minOpen, next.minOpen)))
@@ -502,7 +502,7 @@ package semver
 //@   assert at "this.rank = vector": imp(mergeable(this, next, arb(v, "*Version")) &&
 //@          (in3(this.min, this.minOpen, this.max, this.maxOpen, arb(v, "*Version")) || in3(next.min, next.minOpen, next.max, next.maxOpen, arb(v, "*Version"))),
 //@              in3(this.min, this.minOpen, next.max, next.maxOpen, arb(v, "*Version")))
-//@   property C09
+//@   property C09 C03
 
 // ---------------------------------------------------------------------------
 // C02 (comparator half): the ordering follows the published rules, stated from
@@ -645,7 +645,7 @@ package semver
 //@   requires s != nil
 //@   assert at "span, err := newSpan(min, minOpen, max, maxOpen)": imp(okSpan(selem) && okSpan(telem) && sameSys(selem.min, telem.min) && plain(arb(v, "*Version")) && sameSys(arb(v, "*Version"), selem.min),
 //@          iff(selem.contains(arb(v, "*Version"), true) && telem.contains(arb(v, "*Version"), true), between(min, minOpen, max, maxOpen, arb(v, "*Version"))))
-//@   property C09
+//@   property C09 C03
 
 // ---------------------------------------------------------------------------
 // C03 (partial): how an operator and a version become a span
